@@ -999,6 +999,12 @@ class Interp:
             parts = [self.eval(a, st) for a in node.args]
             dep = frozenset().union(*[p.dep for p in parts]) if parts else frozenset()
             cfg = all(p.cfg for p in parts)
+            # zip of literal sequences of known (small, equal) length: unroll exactly
+            if parts and all(p.kind in ("list", "tuple") and p.items is not None and p.obj is None for p in parts):
+                lens = {len(p.items) for p in parts}
+                if len(lens) == 1 and 0 < next(iter(lens)) <= 12:
+                    n_ = next(iter(lens))
+                    return "unroll", [("lit%d" % i, Val("tuple", items=tuple(p.items[i] for p in parts), dep=dep, cfg=cfg)) for i in range(n_)]
 
             def elems(tag, parts=parts, dep=dep, cfg=cfg):
                 return Val("tuple", items=tuple(self._generic_elem(p, tag, s) for p in parts), dep=dep, cfg=cfg)
